@@ -184,6 +184,65 @@ class ParserGraph:
                     out.append((i, to, tuple(sorted(vals)), t.get("sp", "")))
         return out
 
+    def _dominated(self, m, start):
+        """blocks dominated by block `start` (reflexive) using the idom chain"""
+        out = set()
+        for i in range(len(m["blocks"])):
+            x = i
+            seen = 0
+            while x != -1 and seen < 100000:
+                if x == start:
+                    out.add(i)
+                    break
+                x = m["blocks"][x]["idom"]
+                seen += 1
+        return out
+
+    def inc_regions(self):
+        """for every with_increased_nesting call: (instance id, where, pre delta set, [(callee name, delta set, where)])
+        listing every call (and closure creation) dominated by the increment's return that passes a parser to a
+        lexing function"""
+        out = []
+        for i in sorted(self.reach):
+            v = self.insts[i]
+            if "mir" not in v:
+                continue
+            m = v["mir"]
+            d = self.delta.get(i, {})
+            for bi, bl in enumerate(m["blocks"]):
+                t = bl.get("term")
+                if not (t and t["k"] == "Call" and norm(t.get("resolved") or t.get("callee") or "") == INC and "target" in t):
+                    continue
+                pre = set(self._op_delta(i, d, t["args"][0]) or ())
+                region = self._dominated(m, t["target"])
+                passed = []
+                for rb in sorted(region):
+                    blk = m["blocks"][rb]
+                    for s in blk["stmts"]:
+                        if s["k"] == "Assign" and s["rv"]["k"] == "Aggregate" and s["rv"].get("closure_dp"):
+                            vals = set()
+                            for o in s["rv"]["ops"]:
+                                if "c" not in o and (mentions_fp(m["locals"][o["l"]]["ty"]) or (o["l"] == 1 and i in self.up)):
+                                    vals |= set(self._op_delta(i, d, o) or ())
+                            if vals:
+                                passed.append(("closure " + norm(s["rv"].get("closure", "")), tuple(sorted(vals)), s.get("sp", "")))
+                    tt = blk.get("term")
+                    if not tt or tt["k"] != "Call" or rb == bi:
+                        continue
+                    tgts = [to for to, kind, bb in self.edges[i] if bb == rb and kind == "call"]
+                    for to in tgts:
+                        nm = self.name[to]
+                        if "mir" not in self.insts[to] or nm.startswith("ast::parse::FilterParser::") or nm.startswith("<ast::parse::FilterParser as"):
+                            continue
+                        vals = set()
+                        for a, ty in zip(tt.get("args", []), tt.get("arg_tys", [])):
+                            if mentions_fp(ty):
+                                vals |= set(self._op_delta(i, d, a) or ())
+                        if vals:
+                            passed.append((nm, tuple(sorted(vals)), tt.get("sp", "")))
+                out.append((i, t.get("sp", ""), tuple(sorted(pre)), passed))
+        return out
+
     def inc_sites(self):
         out = []
         for i in sorted(self.reach):
